@@ -110,4 +110,24 @@ TEXTS.update({
         'ref': 'DESIGN.md 4 C12; 3 EFF6 TAB3 TAB11',
     },
 })
+TEXTS.update({
+    'C03': {
+        'level': "Decides the clauses of rejection that are visible in the shape of the code: depth refusal before recursion, nothing allocated survives any failure exit of the parse family (typestate engine over every NULL/non-NULL allocation outcome), the escape table, in-band failure values never accepted as results (hypothesis propagation on the CFG), acceptance only after a production stored a type, closers/commas/colons demanded on the success path. Does not decide the language accepted as a whole.",
+        'note': COMMON_NOTE + " Not decided: that every malformed text is rejected; the exact lenient dialect.",
+        'technique': 'static analysis: disjunctive typestate dataflow for allocations, hypothesis-restricted reachability for failure values, must-pass-through checks, table extraction',
+        'ref': 'DESIGN.md 4 C03; 3 TAB1 OWN2 TAB5a TAB8 TAB17',
+    },
+    'C07': {
+        'level': "Decides the ownership discipline per function and per path: payload releases guarded by the ownership bit that describes the memory (with no type store before the test), key-alias ordering, no double release / use after release / dangling released field, every block released-linked-or-returned on every path including failing consumers, duplicate/reference constructors set and clear the bits. The allocator balance over arbitrary histories is not decided.",
+        'note': COMMON_NOTE + " Summaries of consume-on-success callees are a frozen table re-checked against the callee bodies on every run.",
+        'technique': 'static analysis: disjunctive typestate dataflow (allocation tokens, parent links, NULL correlation) + CFG path rules for flag-guarded releases and key aliasing',
+        'ref': 'DESIGN.md 4 C07; 3 OWN2 OWN4 OWN5 OWN6 TAB14',
+    },
+    'C08': {
+        'level': "The failing-allocation index is replaced by 'every allocator call site x its NULL outcome', which the typestate engine enumerates exhaustively for every function of cJSON.c: the NULL outcome is never dereferenced, nothing allocated earlier in the call is left behind, blocks handed to consume-on-success callees are released when that call can fail at the site, and pre-existing trees are untouched before an allocation that can still fail.",
+        'note': COMMON_NOTE + " Not decided: that the tree still prints the same text afterwards (a value); the run-time allocator configurations.",
+        'technique': 'static analysis: fault-outcome splitting in a disjunctive typestate dataflow; computed callee NULL-tolerance; failure-atomicity path rule',
+        'ref': 'DESIGN.md 4 C08; 3 OWN1 OWN2 OWN3 OWN7',
+    },
+})
 NOT_APPLICABLE = {}
